@@ -172,7 +172,12 @@ def run(ctx):
         f0 = kws.get('f0')
         if f0 is not None:
             stale = [e for e in evals[:n_evals_first]]
-            if isinstance(f0, Poly) and any(('fval%d' % (k + 1)) in f0.atoms() for k in range(n_evals_first)):
+            vals = f0.items() if isinstance(f0, Arr) else (list(f0) if isinstance(f0, (list, tuple)) else [f0])
+            atoms = set()
+            for v in vals:
+                if isinstance(v, Poly):
+                    atoms |= set(v.atoms())
+            if any(('fval%d' % (k + 1)) in atoms for k in range(n_evals_first)):
                 problems.append('f0 of the second call is a value computed during the first call')
         rep.check(not problems, 'R-REUSE', 'nd_scipy.Jacobian.__call__', where, {'problems': problems[:2], 'keywords': sorted(kws)},
                   'only the arguments of the current call are forwarded', 'Jacobian(%s) called twice' % method, key='reuse')
